@@ -15,7 +15,8 @@ def _worker(task):
     """task = (tid, base, local, remote, plan, opts) -> event dict (JSON-able)."""
     tid, base, local, remote, plan, opts = task
     mergedrv.quiet_logging()
-    ev = triple_event(tid, base, local, remote, with_diffs=opts.get("with_diffs", False))
+    generic = opts.get("generic", False)
+    ev = triple_event(tid, base, local, remote, with_diffs=opts.get("with_diffs", False), generic=generic)
     for k in ("law", "expected", "disjoint", "flag", "variants"):
         if k in opts:
             ev[k] = opts[k]
@@ -26,6 +27,14 @@ def _worker(task):
         args = strategy_args(*item["strat"])
         name = "%s|%s|%s" % (kind, strategy_name(args), hl)
         extra = dict(item.get("extra", {}))
+        if generic:
+            run, merged, dec = mergedrv.run_generic(base, local, remote, name, extra=extra,
+                                                    snapshot=opts.get("snapshot", False))
+            if item.get("sym") and "raised" not in run:
+                sw, _, _ = mergedrv.run_generic(base, remote, local, name + "|sw")
+                run["sw"] = {k: sw[k] for k in ("raised", "D", "merged") if k in sw}
+            ev["runs"].append(run)
+            continue
         with helper(hl):
             if kind == "swapped":
                 run, merged, dec = run_merge(base, remote, local, args, name, extra=extra,
@@ -43,31 +52,73 @@ def _worker(task):
     return ev
 
 
+class Events(list):
+    """List of serialised events (NDJSON lines) with light metadata; parsed on demand."""
+
+    def __init__(self):
+        list.__init__(self)
+        self.meta = []          # (tid, [run names])
+        self._pos = {}
+
+    def add(self, tid, names, line):
+        self._pos[tid] = len(self)
+        self.append(line)
+        self.meta.append((tid, names))
+
+    def event(self, tid):
+        return json.loads(self[self._pos[tid]])
+
+    def nruns(self):
+        return sum(len(n) for _, n in self.meta)
+
+
+def _worker_s(task):
+    ev = _worker(task)
+    return ev["tid"], [r["name"] for r in ev["runs"]], json.dumps(ev, separators=(",", ":"))
+
+
 def generate(tasks, jobs=None):
-    """Run the merges of all tasks in a process pool; returns list of events."""
+    """Run the merges of all tasks in a process pool; returns Events (serialised)."""
     jobs = jobs or common.NCPU
+    out = Events()
     if len(tasks) < 8 or jobs == 1:
-        return [_worker(t) for t in tasks]
-    ctx = multiprocessing.get_context("fork")
-    with ctx.Pool(jobs) as pool:
-        return pool.map(_worker, tasks, chunksize=max(1, len(tasks) // (jobs * 8)))
+        res = [_worker_s(t) for t in tasks]
+    else:
+        ctx = multiprocessing.get_context("fork")
+        with ctx.Pool(jobs) as pool:
+            res = pool.map(_worker_s, tasks, chunksize=max(1, len(tasks) // (jobs * 8)))
+    for tid, names, line in res:
+        out.add(tid, names, line)
+    return out
 
 
 def validate(chk, events, label, batch=40):
     v = common.validate("MergeTrace", mergedrv.MERGE_CFG, events, batch=batch, name="merge-" + chk.prop)
     chk.add_validation(v, label)
-    nruns = sum(len(e["runs"]) for e in events)
+    nruns = events.nruns()
     chk.notes.setdefault("merge_runs_validated", 0)
     chk.notes["merge_runs_validated"] += nruns
     return v
 
 
-def index_runs(events):
-    idx = {}
-    for ev in events:
+class _Index(object):
+    def __init__(self, events):
+        self.events = events
+        self._cache = {}
+
+    def __getitem__(self, key):
+        tid, name = key
+        if tid not in self._cache:
+            self._cache = {tid: self.events.event(tid)}
+        ev = self._cache[tid]
         for run in ev["runs"]:
-            idx[(ev["tid"], run["name"])] = (ev, run)
-    return idx
+            if run["name"] == name:
+                return ev, run
+        raise KeyError(key)
+
+
+def index_runs(events):
+    return _Index(events)
 
 
 def replay_obj(ev, run, clauses, info=None):
